@@ -107,6 +107,16 @@ class Ctx(object):
     def note(self, s):
         self.notes.append(s)
 
+    def require(self, cond, msg):
+        """population floor: an analysis error unless a finding of this run already explains
+        the shrunken population (a neutralised gate is a violation, not an analysis error)."""
+        if cond:
+            return
+        if self.findings:
+            self.note("floor not met (explained by the findings of this run): " + msg)
+            return
+        raise AnalysisError(msg)
+
 
 def load_known():
     if not os.path.exists(KNOWN_FILE):
